@@ -21,12 +21,12 @@ def set_sink(sink):
     _sink = sink
 
 
-def emit(event, **fields):
+def emit(_event, **fields):
     if not ON:
         return
     global _seq, _fh
     _seq += 1
-    rec = {"seq": _seq, "pid": os.getpid(), "ev": event}
+    rec = {"seq": _seq, "pid": os.getpid(), "ev": _event}
     rec.update(fields)
     if _sink is not None:
         _sink(rec)
